@@ -97,6 +97,28 @@ func newCctx(parent context.Context) *cctx {
 	return c
 }
 
+// noCancel is context.WithoutCancel for scheduler-owned contexts: values of the
+// parent stay visible, its cancellation and deadline do not - including for
+// contexts derived from it (the lookup of the nearest vs context stops here).
+type noCancel struct{ parent context.Context }
+
+func (noCancel) Deadline() (time.Time, bool) { return time.Time{}, false }
+func (noCancel) Done() <-chan struct{}       { return nil }
+func (noCancel) Err() error                  { return nil }
+func (n noCancel) Value(key any) any {
+	if key == any(&cctxKey) {
+		return nil
+	}
+	return n.parent.Value(key)
+}
+
+func WithoutCancel(parent context.Context) context.Context {
+	if parent == nil {
+		panic("cannot create context from nil parent")
+	}
+	return noCancel{parent}
+}
+
 func stepCancel(c *cctx, err, cause error) {
 	if S != nil && !S.abort {
 		Point("ctxcancel", *(*unsafe.Pointer)(unsafe.Pointer(&c.done)))
